@@ -28,6 +28,8 @@ type Prog struct {
 	repoDir   string
 	chanSpecs map[string]*ChanSpec
 	sentinels map[string]bool
+	globalInits map[types.Object]ast.Expr
+	globalDecl  map[types.Object]bool
 	globalAssigned map[types.Object]bool
 	implCache map[string][]types.Type
 	ghostFuns map[string]*ghostFun
